@@ -482,10 +482,12 @@ impl Gen {
                 let mins: [u128; 4] = [1, 100, 1000, 5000];
                 // (now and then in the all-upper-case spelling, which names the same contract)
                 let or = if rng.chance(2, 3) { if rng.chance(1, 6) { sc.oracle.clone().map(|o| o.to_uppercase()) } else { sc.oracle.clone() } } else { None };
+                // a section that names no account may spell the prefix in capitals (accepted; the same chain is meant)
+                let pfx = if or.is_none() && rng.chance(1, 3) { sc.cfg.prefix.to_uppercase() } else { sc.cfg.prefix.clone() };
                 vec![Op::exec(
                     &sc.admin,
                     &sc.q,
-                    json!({"update_config": {"protocol_chain_config": {"account_address_prefix": sc.cfg.prefix, "ibc_token_denom": sc.s, "ibc_channel_id": sc.cfg.channel, "minimum_liquid_stake_amount": rng.pick(&mins).to_string(), "oracle_address": or}}}),
+                    json!({"update_config": {"protocol_chain_config": {"account_address_prefix": pfx, "ibc_token_denom": sc.s, "ibc_channel_id": sc.cfg.channel, "minimum_liquid_stake_amount": rng.pick(&mins).to_string(), "oracle_address": or}}}),
                     vec![],
                 )]
             }
